@@ -937,7 +937,7 @@ pub fn build_context_fanout(glyph: u16, records: u16, depth: u8, variant: u64) -
             p16(&mut t, 1);
             p16(&mut t, 1);
             p16(&mut t, glyph);
-        } else {
+        } else if variant / 2 % 4 == 0 || variant / 2 % 4 == 3 {
             p16(&mut t, 1);
             p16(&mut t, 0);
             p16(&mut t, 1);
@@ -945,6 +945,25 @@ pub fn build_context_fanout(glyph: u16, records: u16, depth: u8, variant: u64) -
             p16(&mut t, 1);
             p16(&mut t, 6);
             p16(&mut t, 0); // delta 0: the glyph stays what the contexts match
+            p16(&mut t, 1);
+            p16(&mut t, 1);
+            p16(&mut t, glyph);
+        } else {
+            // MultipleSubst: the glyph is deleted (empty sequence: out of spec, accepted by
+            // every implementation) or doubled - the nested application changes the run length
+            let k: u16 = if variant / 2 % 4 == 1 { 0 } else { 2 };
+            p16(&mut t, 2);
+            p16(&mut t, 0);
+            p16(&mut t, 1);
+            p16(&mut t, 8);
+            p16(&mut t, 1); // format
+            p16(&mut t, 10 + 2 * k); // coverage offset
+            p16(&mut t, 1); // sequence count
+            p16(&mut t, 8); // sequence offset
+            p16(&mut t, k);
+            for _ in 0..k {
+                p16(&mut t, glyph);
+            }
             p16(&mut t, 1);
             p16(&mut t, 1);
             p16(&mut t, glyph);
